@@ -247,6 +247,9 @@ FINDING_SHARDS = {
     "C12": [
         ("A", "ConcurrentImmix", "config:concurrentimmix+nonmoving-immix-space"),
     ],
+    "C05": [
+        ("A", "GenCopy", "config:generational+nonmoving-immix-space"),
+    ],
 }
 
 
@@ -301,3 +304,67 @@ gcsim("C02", "New allocations never overlap live objects",
       design_ref="2/C02",
       shards=lambda tier, seed: std_gc_shards(tier, seed, 2, ["weak", "finalizers"]),
       floors={"quick": {"allocations_checked": 150000, "processes_plan_MarkSweep": 1, "processes_plan_Immix": 1, "processes_plan_SemiSpace": 1}})
+
+gcsim("C03", "Allocation results honour size, alignment, offset, zeroing and semantics",
+      rule=GC_RULE + "every allocation result is checked before the header is written: non-null, (addr+offset) % align == 0, [addr, addr+size) mapped MMTk memory, all bytes zero "
+           "(memory dirtied by earlier objects and freed by GCs is reused constantly); sizes concentrate on boundaries (min object, line +-8, mark-sweep size classes +-8, page multiples +-8, "
+           "the non-LOS limit, LOS multi-page), aligns 8..MAX_ALIGNMENT, offsets multiples of 8; case = one allocation; distinct = (size class, align, offset, semantics)",
+      technique="assertion monitor on every allocation return of generated programs (runtime monitoring through a real VM binding); non-termination observed as a crash/watchdog of the process",
+      level_text="Every alloc() of every generated program is checked for alignment, mapped-ness and zeroing before use; a call that never returns shows up as a stack overflow / watchdog of that process.",
+      note="Which space an address belongs to is checked by C31; termination is a bounded observation (watchdog), not a proof.",
+      design_ref="2/C03",
+      shards=lambda tier, seed: std_gc_shards(tier, seed, 3, []),
+      floors={"quick": {"allocations_checked": 150000, "processes_plan_NoGC": 1, "processes_plan_MarkSweep": 1, "processes_plan_Immix": 1}})
+
+gcsim("C04", "Non-moving, immortal and pinned objects never move; immortal ones never die",
+      rule=GC_RULE + "every ObjectModel::copy/copy_to is logged; a move of an object allocated with Immortal/Los/NonMoving semantics, currently pinned, or referenced by a pinning root is a violation; "
+           "pin/unpin/is_pinned results are compared with a shadow pin state; unreachable objects of never-collected spaces (and everything under NoGC) are re-verified by address after every pause; "
+           "case = one pause or pin op",
+      technique="move-log monitor at the binding boundary + by-address integrity check of dropped immortal objects at quiescent points",
+      level_text="All object moves of all pauses are attributed to shadow objects and checked against their semantics/pin state; dropped immortal objects are kept and re-verified forever.",
+      note="pin_object is only exercised where the default space supports it (Immix, StickyImmix, ConcurrentImmix).",
+      design_ref="2/C04",
+      shards=lambda tier, seed: std_gc_shards(tier, seed, 4, ["pin-roots"], plans_filter=["Immix", "StickyImmix", "GenImmix", "ConcurrentImmix", "SemiSpace", "GenCopy", "MarkCompact", "Compressor", "NoGC", "MarkSweep"]),
+      floors={"quick": {"pauses": 200, "immortal_dead_checked": 20000, "pins": 50, "unpins": 30, "processes_plan_NoGC": 1}})
+
+gcsim("C05", "Generational remembered sets are sound",
+      rule=GC_RULE + "generational plans only; every program plants the shape 'object that survived a pause holds the only reference to a fresh object' through the write barrier or the region-copy barrier, "
+           "then provokes collections; at each nursery pause the objects whose only strong path goes through an old object are verified like in C01 and counted; case = one such object",
+      technique="shadow-heap oracle restricted to remembered-set-only survivors of nursery GCs",
+      level_text="Objects that can only have survived a nursery GC through the remembered set are identified in the shadow graph and verified (alive, intact, slot updated) after the pause.",
+      note="Needs nursery GCs: GenCopy, GenImmix, StickyImmix in variants A and B (side log bit).",
+      design_ref="2/C05",
+      shards=lambda tier, seed: std_gc_shards(tier, seed, 5, ["weak"], plans_filter=GENERATIONAL, variants="AB", reps_quick=2) + finding_shards("C05", seed),
+      floors={"quick": {"remset_only_verified": 300, "nursery_pauses": 100, "full_pauses": 10, "old_to_young_stores": 500, "array_copies": 100}})
+
+gcsim("C06", "Soft/weak/phantom references and finalizers follow their semantics",
+      rule=GC_RULE + "programs register weak/soft/phantom reference objects (referent set at construction) and finalizers; clear_referent / set_referent / enqueue_references / get_finalized_object are logged; "
+           "every pause: a cleared reference whose referent was strongly reachable, cleared-but-not-enqueued, enqueued twice, a finalizable returned twice / while strongly reachable at every pause since registration, "
+           "stale address; after forced exhaustive single-mutator GCs additionally the reference model (certainly-live / possibly-live sets S1, S2) decides what MUST have been cleared / made ready; case = one processed reference or finalizable",
+      technique="executable reference model of the reference/finalizer semantics over the shadow graph + exactly-once checker on the recorded callback history",
+      level_text="Safety half after every pause, completeness half only where liveness is exact (forced exhaustive full-heap GC). Retained referents and finalizable closures are verified by the C01 oracle.",
+      note="Soft references reached only through other soft referents are order dependent in MMTk and not judged. Referents are never immortal objects.",
+      design_ref="2/C06",
+      shards=lambda tier, seed: std_gc_shards(tier, seed, 6, ["weak", "finalizers"], plans_filter=COLLECTING + ["Compressor"]),
+      floors={"quick": {"references_cleared": 500, "references_enqueued": 100, "references_must_clear_checked": 30, "finalizers_registered": 200,
+                        "finalizables_popped_at_exact_gc": 20, "exact_pauses": 50}})
+
+gcsim("C07", "After an exhaustive GC, MMTk reports exactly the surviving objects",
+      rule=GC_RULE + "vo_bit variants (A, B), single mutator; after each forced exhaustive GC (mutators still stopped) MMTK::enumerate_objects is compared as a multiset with the survivors "
+           "(shadow-live objects incl. finalizer-resurrected ones + every object of never-collected spaces) and is_mmtk_object is probed at every object that died in that GC; case = one enumerated or probed object",
+      technique="set-equality monitor between enumerate_objects / is_mmtk_object and the shadow heap at quiescent points after exhaustive GCs",
+      level_text="Exact comparison only where liveness is exact; live objects are additionally probed with is_mmtk_object after every pause.",
+      note="Only forced exhaustive full-heap GCs of single-mutator programs are judged for 'dead => not reported'.",
+      design_ref="2/C07",
+      shards=lambda tier, seed: std_gc_shards(tier, seed, 7, ["weak", "finalizers"], single_mutator=True, variants="AB", plans_filter=COLLECTING + ["Compressor"]),
+      floors={"quick": {"exact_pauses": 100, "objects_enumerated": 30000, "dead_objects_probed": 5000}})
+
+gcsim("C13", "VM weak-reference processing rounds run until the closure is complete",
+      rule=GC_RULE + "the binding keeps an ephemeron table (incl. chains key_i reachable only through value_{i-1}, needing i rounds); inside every process_weak_refs call a sample of the strong closure and of the closure of "
+           "everything retained in earlier rounds must answer is_reachable(); forward_weak_refs must be called only for plans with a forwarding pass; table addresses must be current after the pause; case = one callback invocation or probe",
+      technique="in-callback probes + history checker on process_weak_refs/forward_weak_refs invocations",
+      level_text="Closure completeness is probed from inside the VM callback with is_reachable() on objects the shadow graph knows must have been reached.",
+      note="Objects of untraced spaces in nursery GCs (immortal/non-moving) are not probed: is_reachable() is not a closure-completeness proxy there.",
+      design_ref="2/C13",
+      shards=lambda tier, seed: std_gc_shards(tier, seed, 13, ["ephemerons"], plans_filter=COLLECTING + ["Compressor"]),
+      floors={"quick": {"process_weak_refs_calls": 300, "reachability_probes": 50000, "values_retained": 100, "max_rounds_in_one_gc": 3, "ephemeron_chains": 50}})
